@@ -31,7 +31,45 @@ var purityTrees = map[string]map[string]string{
 		"help.tsh": "func One() int {\n\treturn 1\n}\nfunc Two() int {\n\treturn One() + 1\n}\nfunc Three() int {\n\treturn 3\n}\n"},
 }
 
+// programs that share imported files by path: util.tsh has global variables and top-level code, lib.tsh imports it
+var sharedTree = map[string]string{
+	"util.tsh": "greeting := \"hello\"\ncount := 0\nfunc Greet(n string) string {\n\tcount++\n\treturn greeting + \" \" + n\n}\nfunc Count() int {\n\treturn count\n}\nprint(\"util ready\")\n",
+	"lib.tsh":  "import u \"util.tsh\"\n\nprefix := \"[lib]\"\nfunc Say(n string) string {\n\treturn prefix + u.Greet(n)\n}\nprint(\"lib ready\")\n",
+	"shA.tsh":  "import (\n\tu \"util.tsh\"\n\tl \"lib.tsh\"\n)\n\nprint(u.Greet(\"a\"), l.Say(\"b\"), u.Count())\n",
+	"shB.tsh":  "import l \"lib.tsh\"\n\nprint(l.Say(\"world\"))\n",
+	"shC.tsh":  "import (\n\tl \"lib.tsh\"\n\tu \"util.tsh\"\n)\n\nprint(l.Say(\"c\"), u.Count())\n",
+	"shD.tsh":  "import u \"util.tsh\"\n\nprint(u.Greet(\"d\"))\n",
+	"shBad.tsh": "import l \"lib.tsh\"\n\nx := 1\nx = l.Say(\"oops\")\n",
+}
+
+// programs at one and the same path whose imported file is rewritten between calls (versions 1 and 2)
+var mutMain = "import u \"util.tsh\"\n\nprint(u.Label(1), u.Twice(2))\n"
+var mutUtil = map[string]string{
+	"mut1": "base := 10\nfunc Label(n int) string {\n\treturn \"v1-\" + itoa(n + base)\n}\nfunc Twice(n int) int {\n\treturn n * 2\n}\n",
+	"mut2": "base := 20\nfunc Label(n int) string {\n\treturn \"v2-\" + itoa(n + base)\n}\nfunc Twice(n int) int {\n\tm := n + n\n\treturn m\n}\nfunc Extra() int {\n\treturn base\n}\n",
+}
+
+// mainFile returns the file to transpile for a program; programs mut1/mut2 (re)write their tree first
+func mainFile(root, prog, tag string) string {
+	if _, ok := sharedTree[prog+".tsh"]; ok && prog != "util" && prog != "lib" {
+		return filepath.Join(root, "shared", prog+".tsh")
+	}
+	if u, ok := mutUtil[prog]; ok {
+		dir := filepath.Join(root, "mut", tag)
+		os.MkdirAll(dir, 0o755)
+		os.WriteFile(filepath.Join(dir, "main.tsh"), []byte(mutMain), 0o644)
+		os.WriteFile(filepath.Join(dir, "util.tsh"), []byte(u), 0o644)
+		return filepath.Join(dir, "main.tsh")
+	}
+	return filepath.Join(root, prog, "main.tsh")
+}
+
 func writeTrees(root string) {
+	for name, content := range sharedTree {
+		p := filepath.Join(root, "shared", name)
+		os.MkdirAll(filepath.Dir(p), 0o755)
+		os.WriteFile(p, []byte(content), 0o644)
+	}
 	for prog, files := range purityTrees {
 		for name, content := range files {
 			p := filepath.Join(root, prog, name)
@@ -64,7 +102,7 @@ func digestOf(script string, err error, panicked bool) string {
 }
 
 // runSegment executes ops in THIS process; the transpiler object is reused for mode "same".
-func runSegment(ops []pop, orig, reloc string) []pevent {
+func runSegment(ops []pop, orig, reloc, tag string) []pevent {
 	out := []pevent{}
 	t := transpiler.New()
 	for _, o := range ops {
@@ -75,7 +113,7 @@ func runSegment(ops []pop, orig, reloc string) []pevent {
 		if o.Mode != "same" {
 			t = transpiler.New()
 		}
-		file := filepath.Join(root, o.Prog, "main.tsh")
+		file := mainFile(root, o.Prog, tag)
 		var script string
 		var err error
 		panicked := false
@@ -92,13 +130,17 @@ func runSegment(ops []pop, orig, reloc string) []pevent {
 	return out
 }
 
-// cmdPurityRun: vh purityrun <orig> <reloc> <ops-json>  (one process = one segment)
+// cmdPurityRun: vh purityrun <orig> <reloc> <ops-json> [case tag]  (one process = one segment)
 func cmdPurityRun(args []string) {
 	var ops []pop
 	if err := json.Unmarshal([]byte(args[2]), &ops); err != nil {
 		fatal("purityrun: %v", err)
 	}
-	b, _ := json.Marshal(runSegment(ops, args[0], args[1]))
+	tag := "t"
+	if len(args) > 3 {
+		tag = args[3]
+	}
+	b, _ := json.Marshal(runSegment(ops, args[0], args[1], tag))
 	os.Stdout.Write(b)
 }
 
@@ -131,7 +173,7 @@ func cmdPurity(args []string) {
 			events := []any{}
 			for _, seg := range segs {
 				js, _ := json.Marshal(seg)
-				outb, err := exec.Command(self, "purityrun", orig, reloc, string(js)).Output()
+				outb, err := exec.Command(self, "purityrun", orig, reloc, string(js), fmt.Sprintf("c%d", i)).Output()
 				var evs []pevent
 				if err != nil || json.Unmarshal(outb, &evs) != nil {
 					for _, o := range seg {
